@@ -92,6 +92,11 @@ func IllFormed(v *Vector, thorough bool, rs ...*rng.R) []Variant {
 				for _, tok := range []string{"9223372037", "9223372036854775807", "18446744074"} {
 					add("expiry-overflows-duration", s.Name+"="+tok, argvValue(replaced(v.Argv, i, tok), -1))
 				}
+			case "timestamp", "unix-time-seconds":
+				// an absolute time in seconds that cannot be represented (Redis converts it to milliseconds)
+				for _, tok := range []string{"9223372036854775807", "9223371974719179008", "9223372036854776"} {
+					add("expiry-overflows-time", s.Name+"="+tok, argvValue(replaced(v.Argv, i, tok), -1))
+				}
 			case "milliseconds":
 				for _, tok := range []string{"9223372036855", "9223372036854775807", "18446744073710"} {
 					add("expiry-overflows-duration", s.Name+"="+tok, argvValue(replaced(v.Argv, i, tok), -1))
